@@ -470,9 +470,10 @@ structure Linked (S : Suite) (s r : Sess) : Prop where
 `SrtpSession::unprotect_rtp`, for any tables (any number of other SSRCs, contexts created on demand,
 eviction running on both sides at arbitrary times `now`, `now'`): if the two sessions hold the same
 rollover state for the packet's SSRC (both none counts), the receiver returns exactly the packet, both
-sessions stay `Linked`, and they again hold the same rollover state for that SSRC. -/
+sessions stay `Linked`, and they again hold the same rollover state for that SSRC. `hroom`: the
+receiver holds fewer than `MAX_RX_CONTEXTS` contexts (at the cap a packet of a NEW SSRC is refused). -/
 theorem session_roundtrip_rtp (S : Suite) (s r : Sess) (now now' : Nat) (p : Pkt) (wf : p.WF)
-    (hl : Linked S s r)
+    (hl : Linked S s r) (hroom : r.rx.length < maxRxContexts)
     (hsync0 : rocOf s.tx p.hdr.ssrc = rocOf r.rx p.hdr.ssrc) :
     ∃ wire, (s.protectRtp S now p).1 = .ok wire ∧
       (∃ body, parseHdr wire = .ok (p.hdr, decide (p.padLen ≠ 0), body)) ∧
@@ -493,7 +494,7 @@ theorem session_roundtrip_rtp (S : Suite) (s r : Sess) (now now' : Nat) (p : Pkt
   have hrs : r.profile.saltLen ≤ r.rxMs.length := by rw [hl.profile, hl.msalt]; exact hl.saltLen
   obtain ⟨cr, hcrK, hcrS, hcrR, hacc⟩ := withRx_result S r now' p.hdr.ssrc
     (fun c => c.unprotectRtp S p.hdr (p.padLen ≠ 0) (rtpWireBody S cs p (cs.estimate p.hdr.seq)))
-    hl.rxInv hrk hrs (fun c => unprotectRtp_ssrc S c _ _ _)
+    hl.rxInv hrk hrs hroom (fun c => unprotectRtp_ssrc S c _ _ _)
   have hst : (cr.roc, cr.last) = (cs.roc, cs.last) := by rw [hcrR, hcsR, hsync]
   have hroc' : cr.roc = cs.roc := (Prod.mk.injEq .. ▸ hst).1
   have hlast' : cr.last = cs.last := (Prod.mk.injEq .. ▸ hst).2
@@ -534,6 +535,7 @@ def streamThrough (S : Suite) : Sess → Sess → Nat → List Pkt → List (Exc
 /-- every packet of an in-order stream of any length on one SSRC comes out exactly as it went in —
 whatever the sequence numbers do (the two ends run the same estimate from the same state) -/
 theorem session_stream_roundtrip (S : Suite) (k now : Nat) (ps : List Pkt) (s r : Sess) (hl : Linked S s r)
+    (hroom : r.rx.length + ps.length ≤ maxRxContexts)
     (hps : ∀ p ∈ ps, p.WF ∧ p.hdr.ssrc = k) (hsync : rocOf s.tx k = rocOf r.rx k) :
     streamThrough S s r now ps = ps.map .ok := by
   induction ps generalizing s r with
@@ -541,9 +543,11 @@ theorem session_stream_roundtrip (S : Suite) (k now : Nat) (ps : List Pkt) (s r 
   | cons p ps ih =>
     obtain ⟨wf, hk⟩ := hps p (by simp)
     subst hk
-    obtain ⟨wire, h1, _, h2, h3, h4⟩ := session_roundtrip_rtp S s r now now p wf hl hsync
+    simp only [List.length_cons] at hroom
+    obtain ⟨wire, h1, _, h2, h3, h4⟩ := session_roundtrip_rtp S s r now now p wf hl (by omega) hsync
+    have hlen := receiveRtp_length S r now wire
     simp only [streamThrough, h1, h2, List.map_cons]
-    rw [ih _ _ h3 (fun q hq => hps q (by simp [hq])) h4]
+    rw [ih _ _ h3 (by omega) (fun q hq => hps q (by simp [hq])) h4]
 
 example (S : Suite) (mk ms : Bytes) (h1 : srtpKeyLen ≤ mk.length) (h2 : Profile.gcm.saltLen ≤ ms.length) :
     Linked S (Sess.new .gcm mk ms mk ms) (Sess.new .gcm mk ms mk ms) :=
@@ -570,6 +574,7 @@ agree on every SSRC's rollover state return every delivered packet of every in-o
 (any SSRCs, any times, any losses). -/
 def ManySsrcRoundtrip (S : Suite) : Prop :=
   ∀ (s r : Sess) (sched : List (Nat × Bool × Pkt)), Linked S s r → (∀ k, rocOf s.tx k = rocOf r.rx k) →
+    r.rx.length + sched.length ≤ maxRxContexts →
     (∀ x ∈ sched, x.2.2.WF) → allDelivered S s r sched = true
 
 namespace Witness
@@ -623,7 +628,7 @@ theorem many_ssrc_roundtrip_witness : ¬ (∀ S, ManySsrcRoundtrip S) ∧
     allDelivered toySuite s0 s0 noIdle = true := by
   have h1 : allDelivered toySuite s0 s0 txEvicted = false := by decide
   refine ⟨fun h => ?_, h1, by decide, by decide⟩
-  have := h toySuite s0 s0 txEvicted linked0 (fun _ => rfl) (fun x hx => by
+  have := h toySuite s0 s0 txEvicted linked0 (fun _ => rfl) (by decide) (fun x hx => by
     simp only [txEvicted, List.mem_append, List.mem_cons, List.not_mem_nil, or_false] at hx
     rcases hx with hx | rfl | rfl
     · exact wf_of_mem warmup_shape hx
@@ -636,10 +641,12 @@ theorem many_ssrc_roundtrip_witness : ¬ (∀ S, ManySsrcRoundtrip S) ∧
 /-- **many_ssrc_roundtrip_partial** — the part of `ManySsrcRoundtrip` that does hold: any number of
 SSRCs, interleaved arbitrarily, any sequence numbers, as long as NO context idles for the eviction
 time: all activity (the tables' last-use stamps and the schedule) lies in a window shorter than
-`SSRC_INACTIVITY_EVICT` starting at `T`, and nothing is lost. (The excluded point is exactly the
+`SSRC_INACTIVITY_EVICT` starting at `T`, nothing is lost, and the receiver stays below the
+`MAX_RX_CONTEXTS` cap (`hroom`). (The excluded point is exactly the
 witness above; loss is covered per context by `reorder_loss_roundtrip`.) -/
 theorem many_ssrc_roundtrip_partial (S : Suite) (T : Nat) (sched : List (Nat × Bool × Pkt)) (s r : Sess)
     (hl : Linked S s r) (hsync : ∀ k, rocOf s.tx k = rocOf r.rx k)
+    (hroom : r.rx.length + sched.length ≤ maxRxContexts)
     (hwf : ∀ x ∈ sched, x.2.2.WF) (hdel : ∀ x ∈ sched, x.2.1 = true)
     (ht : ∀ x ∈ sched, T ≤ x.1 ∧ x.1 < T + ssrcInactivityEvictSecs)
     (hus : UsedSince T s.tx) (hur : UsedSince T r.rx) :
@@ -653,7 +660,9 @@ theorem many_ssrc_roundtrip_partial (S : Suite) (T : Nat) (sched : List (Nat × 
     obtain ⟨hT, hn⟩ := ht _ (List.mem_cons_self ..)
     simp only at hT hn
     have wf : p.WF := hwf _ (List.mem_cons_self ..)
-    obtain ⟨wire, h1, ⟨body, hparse⟩, h2, h3, h4⟩ := session_roundtrip_rtp S s r now now p wf hl (hsync p.hdr.ssrc)
+    simp only [List.length_cons] at hroom
+    obtain ⟨wire, h1, ⟨body, hparse⟩, h2, h3, h4⟩ := session_roundtrip_rtp S s r now now p wf hl (by omega) (hsync p.hdr.ssrc)
+    have hlen := receiveRtp_length S r now wire
     have ftx := withTx_frame S s T now p.hdr.ssrc (fun c => c.protectRtp S p) hus hT hn
       (fun c => protectRtp_ssrc S c p) (fun c => protectRtp_lastUsed S c p)
     have frx := withRx_frame S r T now p.hdr.ssrc (fun c => c.unprotectRtp S p.hdr (p.padLen ≠ 0) body) hur hT hn
@@ -665,7 +674,7 @@ theorem many_ssrc_roundtrip_partial (S : Suite) (T : Nat) (sched : List (Nat × 
     have f2 : ∀ k, k ≠ p.hdr.ssrc → rocOf (r.receiveRtp S now wire).2.rx k = rocOf r.rx k := by
       rw [hrs]; exact frx.2
     simp only [allDelivered, h1, h2, if_true, beq_self_eq_true, Bool.true_and]
-    refine ih _ _ h3 (fun k => ?_) (fun y hy => hwf y (List.mem_cons_of_mem _ hy))
+    refine ih _ _ h3 (fun k => ?_) (by omega) (fun y hy => hwf y (List.mem_cons_of_mem _ hy))
       (fun y hy => hdel y (List.mem_cons_of_mem _ hy)) (fun y hy => ht y (List.mem_cons_of_mem _ hy)) u1 u2
     by_cases hk : k = p.hdr.ssrc
     · rw [hk]; exact h4
@@ -682,7 +691,7 @@ example : allDelivered toySuite s0 s0 warmup = true := by
     intro y hy
     simp only [warmup, List.mem_append, List.mem_map, List.mem_range, List.mem_cons, List.not_mem_nil, or_false] at hy
     rcases hy with ⟨k, _, rfl⟩ | rfl | rfl | rfl | rfl <;> exact ⟨rfl, rfl⟩
-  exact many_ssrc_roundtrip_partial toySuite 0 warmup s0 s0 linked0 (fun _ => rfl)
+  exact many_ssrc_roundtrip_partial toySuite 0 warmup s0 s0 linked0 (fun _ => rfl) (by decide)
     (fun x hx => wf_of_mem warmup_shape hx) (fun x hx => (hsh x hx).2)
     (fun x hx => by rw [(hsh x hx).1]; exact ⟨Nat.le_refl _, by decide⟩)
     (fun _ h => by simp [s0, Sess.new] at h) (fun _ h => by simp [s0, Sess.new] at h)
